@@ -9,7 +9,9 @@ CONSTANTS N,             \* tokens each endpoint may write
           CopyFromBuf,   \* mutant: up copier reads the bufio again after drainBuffer (Peek not consumed)
           BufferedReply, \* mutant: upstream reply parsed with an ordinary buffered reader
           CloseNotHalf,  \* mutant: Close() instead of CloseWrite() when one direction ends
-          JoinFirst      \* mutant: bicopy returns after the first direction
+          JoinFirst,     \* mutant: bicopy returns after the first direction
+          ForceWhileFlowing \* as found: the tunnel is closed by force a fixed time after the first direction has finished,
+                            \* whether or not the other direction is still copying
 
 FIN == 0   \* end-of-stream marker travelling behind the last token
 Dirs == {"up", "dn"}
@@ -25,9 +27,10 @@ VARIABLES
   dst,      \* [Dirs -> Seq]      delivered to the destination endpoint of d (tokens, then FIN)
   ppc,      \* proxy: "connect" | "reply" | "drain" | "copy" | "closed"
   cpc,      \* [Dirs -> "idle" | "run" | "eof" | "done"]
-  open      \* [{"client","target"} -> BOOLEAN]  proxy-side sockets open
+  open,     \* [{"client","target"} -> BOOLEAN]  proxy-side sockets open
+  cut       \* directions that had octets on their way when the tunnel was closed by force, and "forced" once it was (ghost)
 
-vars == <<sent, fin, sock, early, lost, buf, dst, ppc, cpc, open>>
+vars == <<sent, fin, sock, early, lost, buf, dst, ppc, cpc, open, cut>>
 Toks(n) == [i \in 1..n |-> i]
 Src(d) == IF d = "up" THEN "client" ELSE "target"
 Dst(d) == IF d = "up" THEN "target" ELSE "client"
@@ -37,7 +40,7 @@ Init ==
   /\ sock = [d \in Dirs |-> <<>>] /\ early = <<>> /\ lost = <<>>
   /\ buf = [d \in Dirs |-> <<>>] /\ dst = [d \in Dirs |-> <<>>]
   /\ ppc = "connect" /\ cpc = [d \in Dirs |-> "idle"]
-  /\ open = [e \in {"client", "target"} |-> TRUE]
+  /\ open = [e \in {"client", "target"} |-> TRUE] /\ cut = {}
 
 (* ---------------- endpoints ---------------- *)
 \* the client may write right behind the request head (early data): the proxy's bufio may
@@ -49,11 +52,11 @@ EpWrite(d) ==
      THEN \/ early' = Append(early, sent[d] + 1) /\ UNCHANGED sock
           \/ sock' = [sock EXCEPT ![d] = Append(@, sent[d] + 1)] /\ UNCHANGED early
      ELSE sock' = [sock EXCEPT ![d] = Append(@, sent[d] + 1)] /\ UNCHANGED early
-  /\ UNCHANGED <<fin, lost, buf, dst, ppc, cpc, open>>
+  /\ UNCHANGED <<fin, lost, buf, dst, ppc, cpc, open, cut>>
 EpShutWr(d) ==
   /\ ~fin[d] /\ fin' = [fin EXCEPT ![d] = TRUE]
   /\ sock' = [sock EXCEPT ![d] = Append(@, FIN)]
-  /\ UNCHANGED <<sent, early, lost, buf, dst, ppc, cpc, open>>
+  /\ UNCHANGED <<sent, early, lost, buf, dst, ppc, cpc, open, cut>>
 
 (* ---------------- proxy ---------------- *)
 \* dialvia DialContextR reads the upstream reply byte by byte (http.go:121,189)
@@ -62,9 +65,9 @@ PConnect ==
   /\ IF BufferedReply /\ sock["dn"] # <<>> /\ Head(sock["dn"]) # FIN
      THEN lost' = Append(lost, Head(sock["dn"])) /\ sock' = [sock EXCEPT !["dn"] = Tail(@)]
      ELSE UNCHANGED <<lost, sock>>
-  /\ UNCHANGED <<sent, fin, early, buf, dst, cpc, open>>
+  /\ UNCHANGED <<sent, fin, early, buf, dst, cpc, open, cut>>
 PReply == /\ ppc = "reply" /\ ppc' = "drain"
-          /\ UNCHANGED <<sent, fin, sock, early, lost, buf, dst, cpc, open>>
+          /\ UNCHANGED <<sent, fin, sock, early, lost, buf, dst, cpc, open, cut>>
 \* drainBuffer: Peek (not consume) the bufio and write it to the target; the copiers then
 \* read the raw connection, so the peeked bytes are never seen again
 PDrain ==
@@ -73,7 +76,7 @@ PDrain ==
   /\ IF CopyFromBuf THEN sock' = [sock EXCEPT !["up"] = early \o @] ELSE UNCHANGED sock
   /\ early' = <<>>
   /\ cpc' = [d \in Dirs |-> "run"]
-  /\ UNCHANGED <<sent, fin, lost, buf, open>>
+  /\ UNCHANGED <<sent, fin, lost, buf, open, cut>>
 
 \* copier.copy: io.CopyBuffer(dst, src) ...
 CRead(d) ==
@@ -82,32 +85,42 @@ CRead(d) ==
      THEN cpc' = [cpc EXCEPT ![d] = "eof"] /\ UNCHANGED buf
      ELSE buf' = [buf EXCEPT ![d] = <<Head(sock[d])>>] /\ UNCHANGED cpc
   /\ sock' = [sock EXCEPT ![d] = Tail(@)]
-  /\ UNCHANGED <<sent, fin, early, lost, dst, ppc, open>>
+  /\ UNCHANGED <<sent, fin, early, lost, dst, ppc, open, cut>>
 CWrite(d) ==
   /\ cpc[d] = "run" /\ buf[d] # <<>> /\ open[Dst(d)]
   /\ dst' = [dst EXCEPT ![d] = @ \o buf[d]] /\ buf' = [buf EXCEPT ![d] = <<>>]
-  /\ UNCHANGED <<sent, fin, sock, early, lost, ppc, cpc, open>>
+  /\ UNCHANGED <<sent, fin, sock, early, lost, ppc, cpc, open, cut>>
 \* ... then closeWriter(dst): CloseWrite on the destination (copy.go:100)
 CCloseWrite(d) ==
   /\ cpc[d] = "eof" /\ cpc' = [cpc EXCEPT ![d] = "done"]
   /\ IF CloseNotHalf
      THEN open' = [open EXCEPT ![Dst(d)] = FALSE] /\ dst' = [dst EXCEPT ![d] = Append(@, FIN)]
      ELSE dst' = [dst EXCEPT ![d] = Append(@, FIN)] /\ UNCHANGED open
-  /\ UNCHANGED <<sent, fin, sock, early, lost, buf, ppc>>
+  /\ UNCHANGED <<sent, fin, sock, early, lost, buf, ppc, cut>>
 \* a copier whose socket was closed under it stops
 CAbort(d) ==
   /\ cpc[d] = "run" /\ (~open[Src(d)] \/ ~open[Dst(d)])
   /\ cpc' = [cpc EXCEPT ![d] = "done"]
-  /\ UNCHANGED <<sent, fin, sock, early, lost, buf, dst, ppc, open>>
+  /\ UNCHANGED <<sent, fin, sock, early, lost, buf, dst, ppc, open, cut>>
 \* bicopy waits for both, then tunnel returns and both sockets are closed (defer crw.Close, handleLoop)
 PJoin ==
   /\ ppc = "copy"
   /\ IF JoinFirst THEN \E d \in Dirs : cpc[d] = "done" ELSE \A d \in Dirs : cpc[d] = "done"
   /\ ppc' = "closed" /\ open' = [e \in {"client", "target"} |-> FALSE]
-  /\ UNCHANGED <<sent, fin, sock, early, lost, buf, dst, cpc>>
+  /\ UNCHANGED <<sent, fin, sock, early, lost, buf, dst, cpc, cut>>
+\* gracefulCloseAfter (copy.go): once the first direction has finished, a peer that hangs must not keep the tunnel - and
+\* two sockets - for ever: the tunnel is closed by force when nothing has moved for the grace period. "Nothing has moved
+\* for a period" is, without a clock: nothing is on its way in the direction that is left.
+Flowing(d) == cpc[d] = "run" /\ (sock[d] # <<>> \/ buf[d] # <<>>)
+PForce ==
+  /\ ppc = "copy" /\ \E d \in Dirs : cpc[d] = "done"
+  /\ (ForceWhileFlowing \/ \A d \in Dirs : ~Flowing(d))
+  /\ open' = [e \in {"client", "target"} |-> FALSE]
+  /\ cut' = cut \cup {d \in Dirs : Flowing(d)} \cup {"forced"}
+  /\ UNCHANGED <<sent, fin, sock, early, lost, buf, dst, ppc, cpc>>
 
 Next == \/ \E d \in Dirs : EpWrite(d) \/ EpShutWr(d) \/ CRead(d) \/ CWrite(d) \/ CCloseWrite(d) \/ CAbort(d)
-        \/ PConnect \/ PReply \/ PDrain \/ PJoin
+        \/ PConnect \/ PReply \/ PDrain \/ PJoin \/ PForce
 Proxy == \/ \E d \in Dirs : CRead(d) \/ CWrite(d) \/ CCloseWrite(d) \/ CAbort(d)
          \/ PConnect \/ PReply \/ PDrain \/ PJoin
 Spec == Init /\ [][Next]_vars /\ WF_vars(Proxy)
@@ -122,9 +135,12 @@ EOFAfterLast == \A d \in Dirs :
 NoFinTwice == \A d \in Dirs : Cardinality({i \in 1..Len(dst[d]) : dst[d][i] = FIN}) <= 1
 NothingSwallowed == lost = <<>>
 \* one direction ending does not stop the other: sockets stay open until both are finished
-OpenUntilBothDone == (\E e \in {"client", "target"} : ~open[e]) => (\A d \in Dirs : cpc[d] = "done")
+\* (or, closed by force, the direction that was left had nothing on its way)
+OpenUntilBothDone == (\E e \in {"client", "target"} : ~open[e]) => ((\A d \in Dirs : cpc[d] = "done") \/ ((\E d \in Dirs : cpc[d] = "done") /\ cut = {"forced"}))
+NeverCutWhileFlowing == cut \subseteq {"forced"}
 \* liveness
 AllDelivered == \A d \in Dirs : <>[](ppc # "connect" /\ ppc # "reply" /\ ppc # "drain" => TRUE)
-EventuallyDelivered == \A d \in Dirs : [](fin[d] => <>(Data(dst[d]) = Toks(sent[d]) /\ dst[d] # <<>> /\ Last(dst[d]) = FIN))
+\* (a tunnel that was closed by force because its remaining direction stood still delivers nothing more)
+EventuallyDelivered == \A d \in Dirs : [](fin[d] => <>(("forced" \in cut) \/ (Data(dst[d]) = Toks(sent[d]) /\ dst[d] # <<>> /\ Last(dst[d]) = FIN)))
 BothClosed == [](\A d \in Dirs : fin[d]) => <>(ppc = "closed")
 ==============================================================================
